@@ -187,34 +187,40 @@ impl ToZinc for DateTime {
 
 impl ToZinc for Str {
     fn to_zinc<W: std::io::Write>(&self, writer: &mut W) -> Result<()> {
-        writer.write_all(b"\"")?;
-        let mut buf = [0; 4];
-        for c in self.value.chars() {
-            if c < ' ' || c == '"' || c == '\\' {
-                match c {
-                    '"' => writer.write_all(br#"\""#)?,
-                    '\t' => writer.write_all(br"\t")?,
-                    '\r' => writer.write_all(br"\r")?,
-                    '\n' => writer.write_all(br"\n")?,
-                    '\\' => writer.write_all(br"\\")?,
-                    _ => writer.write_fmt(format_args!("\\u{:04x}", c as u32))?,
-                }
-            } else if c == '$' {
-                writer.write_all(br"\$")?
-            } else {
-                let chunk = c.encode_utf8(&mut buf);
-                writer.write_fmt(format_args!("{}", chunk))?
-            }
-        }
-        writer.write_all(b"\"")?;
-        Ok(())
+        write_quoted_str(writer, &self.value)
     }
+}
+
+/// Writes a quoted and escaped Zinc string
+fn write_quoted_str<W: std::io::Write>(writer: &mut W, value: &str) -> Result<()> {
+    writer.write_all(b"\"")?;
+    let mut buf = [0; 4];
+    for c in value.chars() {
+        if c < ' ' || c == '"' || c == '\\' {
+            match c {
+                '"' => writer.write_all(br#"\""#)?,
+                '\t' => writer.write_all(br"\t")?,
+                '\r' => writer.write_all(br"\r")?,
+                '\n' => writer.write_all(br"\n")?,
+                '\\' => writer.write_all(br"\\")?,
+                _ => writer.write_fmt(format_args!("\\u{:04x}", c as u32))?,
+            }
+        } else if c == '$' {
+            writer.write_all(br"\$")?
+        } else {
+            let chunk = c.encode_utf8(&mut buf);
+            writer.write_fmt(format_args!("{}", chunk))?
+        }
+    }
+    writer.write_all(b"\"")?;
+    Ok(())
 }
 
 impl ToZinc for Ref {
     fn to_zinc<W: std::io::Write>(&self, writer: &mut W) -> Result<()> {
         if let Some(dis) = &self.dis {
-            writer.write_fmt(format_args!("@{} \"{}\"", self.value, dis))?
+            writer.write_fmt(format_args!("@{} ", self.value))?;
+            write_quoted_str(writer, dis)?
         } else {
             writer.write_fmt(format_args!("@{}", self.value))?
         }
@@ -255,12 +261,13 @@ impl ToZinc for Uri {
 
 impl ToZinc for XStr {
     fn to_zinc<W: std::io::Write>(&self, writer: &mut W) -> Result<()> {
-        writer.write_fmt(format_args!(
-            "{}{}(\"{}\")",
-            self.r#type[0..1].to_uppercase(),
-            &self.r#type[1..],
-            self.value
-        ))?;
+        let mut chars = self.r#type.chars();
+        if let Some(first) = chars.next() {
+            writer.write_fmt(format_args!("{}{}", first.to_uppercase(), chars.as_str()))?;
+        }
+        writer.write_all(b"(")?;
+        write_quoted_str(writer, &self.value)?;
+        writer.write_all(b")")?;
         Ok(())
     }
 }
